@@ -362,6 +362,11 @@ fn is_assignment_target(expr: &Expr) -> bool {
     }
 }
 
+fn is_identifier_name(name: &str) -> bool {
+    let mut chars = name.chars();
+    chars.next().is_some_and(Ident::is_valid_start) && chars.all(Ident::is_valid_continue)
+}
+
 fn transform_modifiers(modifiers: BTreeSet<Atom>, quote_prop: bool) -> Option<Expr> {
     if modifiers.is_empty() {
         None
@@ -372,7 +377,7 @@ fn transform_modifiers(modifiers: BTreeSet<Atom>, quote_prop: bool) -> Option<Ex
                 .into_iter()
                 .map(|modifier| {
                     PropOrSpread::Prop(Box::new(Prop::KeyValue(KeyValueProp {
-                        key: if quote_prop {
+                        key: if quote_prop || !is_identifier_name(&modifier) {
                             PropName::Str(quote_str!(modifier))
                         } else {
                             PropName::Ident(quote_ident!(modifier))
